@@ -1,16 +1,16 @@
 (** GenPatchHeapEx.v — non-vacuity of GenPatchHeap*.v on a concrete heap, by computation.
 
     [gx_heap] encodes the forest [gx_F] = [from; to; arr]:
-      from (root 1)  {"b":1,"a":[1,2,3],"s":"x","k/~":{"z":1}}                 nodes 1-9, string blocks 102-110
-      to   (root 20) {"a":[1,5],"s":"y","k/~":{"z":2,"w":[true]},"n":null}      nodes 20-29, string blocks 121-129
+      from (root 1)  {"b":1,"a":[1,2,3],"s":"x","k/~":{"z":1},"m":[]}                   nodes 1-10, string blocks 102-111
+      to   (root 20) {"a":[1,5],"s":"y","k/~":{"z":2,"w":[true]},"n":null,"m":true}      nodes 20-30, string blocks 121-130
       arr  (root 50) []                                                          an empty patches array
     allocator pointer 1000. *)
 From CJ Require Import Base Dbl Heap Forest ForestLemmas CoreDefs CoreRefineBase CoreRefineAddObject CoreRefineFrame
   CoreRefineDupValue CoreRefineDupForest CoreRefineCreate CoreLedgerGen.
 From CJ Require Import TierBridgeDefs TierBridgeEndToEndStr MergeHeapDefs MergeHeapInv MergeHeapProofs MergeHeapEx.
 From CJ Require Import GenMergeHeapDefs GenMergeHeapForest GenMergeHeapEx PatchHeapDefs PatchHeapPointer PatchHeapSteps.
-From CJ Require Import GenPatchHeapDefs GenPatchHeapBytes GenPatchHeapSteps GenPatchHeapCompose.
-From CJ Require Tree CoreOps CompareDefs PointerDefs PatchDefs SortSpec.
+From CJ Require Import PatchHeapApplyDefs PatchHeapTest GenPatchHeapDefs GenPatchHeapBytes GenPatchHeapSteps GenPatchHeapCompose GenPatchHeapProofs GenPatchHeapEntry.
+From CJ Require Tree CoreOps CompareDefs PointerDefs PatchDefs SortSpec Rfc6902 PatchConform PatchApply PatchSeq GenPatchHeapRound.
 From CJ.gen Require Import Constants.
 From stdpp Require Import gmap.
 From Coq Require Import Lia.
@@ -22,7 +22,8 @@ Definition gx_from : tree :=
     exh_mk 3 c_cJSON_Array None 0 (Some 103%positive)
       [exh_mk 4 c_cJSON_Number None 1 None []; exh_mk 5 c_cJSON_Number None 2 None []; exh_mk 6 c_cJSON_Number None 3 None []];
     exh_mk 7 c_cJSON_String (Some 107%positive) 0 (Some 108%positive) [];
-    exh_mk 8 c_cJSON_Object None 0 (Some 109%positive) [exh_mk 9 c_cJSON_Number None 1 (Some 110%positive) []]].
+    exh_mk 8 c_cJSON_Object None 0 (Some 109%positive) [exh_mk 9 c_cJSON_Number None 1 (Some 110%positive) []];
+    exh_mk 10 c_cJSON_Array None 0 (Some 111%positive) []].
 Definition gx_to : tree :=
   exh_mk 20 c_cJSON_Object None 0 None
    [exh_mk 21 c_cJSON_Array None 0 (Some 121%positive)
@@ -31,11 +32,12 @@ Definition gx_to : tree :=
     exh_mk 25 c_cJSON_Object None 0 (Some 126%positive)
       [exh_mk 26 c_cJSON_Number None 2 (Some 127%positive) [];
        exh_mk 27 c_cJSON_Array None 0 (Some 128%positive) [exh_mk 28 c_cJSON_True None 0 None []]];
-    exh_mk 29 c_cJSON_NULL None 0 (Some 129%positive) []].
+    exh_mk 29 c_cJSON_NULL None 0 (Some 129%positive) [];
+    exh_mk 30 c_cJSON_True None 0 (Some 130%positive) []].
 Definition gx_arr : tree := exh_mk 50 c_cJSON_Array None 0 None [].
 Definition gx_St : gmap positive bytes :=
   list_to_map [(102%positive, [98; 0]); (103%positive, [97; 0]); (107%positive, [120; 0]); (108%positive, [115; 0]);
-               (109%positive, [107; 47; 126; 0]); (110%positive, [122; 0]);
+               (109%positive, [107; 47; 126; 0]); (110%positive, [122; 0]); (111%positive, [109; 0]); (130%positive, [109; 0]);
                (121%positive, [97; 0]); (124%positive, [121; 0]); (125%positive, [115; 0]); (126%positive, [107; 47; 126; 0]);
                (127%positive, [122; 0]); (128%positive, [119; 0]); (129%positive, [110; 0])].
 Definition gx_A : forest := [gx_from; gx_to].
@@ -94,3 +96,153 @@ Lemma gx_stage2_runs :
   elements (lib_live gx_heap ∖ lib_live gx_compose_after) = [] /\
   forallb (fun b => bool_decide (b ∉ h_live gx_compose_after)) [1004]%positive = true.
 Proof. split_and!; vm_compute; reflexivity. Qed.
+
+(** ** stages 3-5: create_patches(arr, path, a, b, true) on pairs of nodes of [from] and [to] *)
+Definition gx_cp (path : bytes) (a b : positive) : out (unit * heap) :=
+  create_patches nofail (Some 50%positive) (CLit path) (Some a) (Some b) true gx_heap.
+Definition gx_cp_dump (path : bytes) (a b : positive) : option (option (Tree.node * bool)) :=
+  out_val (CoreOps.dump_node 50 (Some 50%positive) (out_heap (gx_cp path a b) gx_heap)).
+Definition gx_node (F : forest) (i : positive) : Tree.node :=
+  match find_tree i F with Some n => reify gx_St n | None => PatchDefs.invalid_node end.
+Definition gx_cp_model (path : bytes) (a b : positive) : option (option (Tree.node * bool)) :=
+  match PatchDefs.create_patches (Tree.node_depth (gx_node gx_F a)) [] path (gx_node gx_F a) (gx_node gx_F b) true with
+  | Ok (ps, _, _) => Some (Some (PatchDefs.set_children PatchDefs.create_array ps, true))
+  | _ => None
+  end.
+Definition gx_cp_count (path : bytes) (a b : positive) : option nat :=
+  match gx_cp_model path a b with Some (Some (n, _)) => Some (length (Tree.n_children n)) | _ => None end.
+Definition gx_p : bytes := [47; 120].     (* "/x" *)
+
+Lemma gx_stage3_runs :
+  (* numbers 1 / 2: one "replace"; numbers 1 / 1: nothing; string "x" / number 1, array [] / true: type mismatch, "replace";
+     strings "x" / "y": "replace"; null / true-typed pairs of equal type: nothing *)
+  gx_cp_dump gx_p 2 26 = gx_cp_model gx_p 2 26 /\ gx_cp_count gx_p 2 26 = Some 1%nat /\
+  gx_cp_dump gx_p 2 22 = gx_cp_model gx_p 2 22 /\ gx_cp_count gx_p 2 22 = Some 0%nat /\
+  gx_cp_dump gx_p 7 22 = gx_cp_model gx_p 7 22 /\ gx_cp_count gx_p 7 22 = Some 1%nat /\
+  gx_cp_dump gx_p 10 30 = gx_cp_model gx_p 10 30 /\ gx_cp_count gx_p 10 30 = Some 1%nat /\
+  gx_cp_dump gx_p 7 24 = gx_cp_model gx_p 7 24 /\ gx_cp_count gx_p 7 24 = Some 1%nat /\
+  gx_cp_dump gx_p 28 30 = gx_cp_model gx_p 28 30 /\ gx_cp_count gx_p 28 30 = Some 0%nat.
+Proof. split_and!; vm_compute; reflexivity. Qed.
+
+Lemma gx_stage4_runs :
+  (* arrays [1,2,3] / [1,5]: replace /x/1, remove /x/2; the other way round: replace /x/1, add /x/- ;
+     [1,2,3] / [true]: replace /x/0, remove /x/1 TWICE (the index is not advanced) *)
+  gx_cp_dump gx_p 3 21 = gx_cp_model gx_p 3 21 /\ gx_cp_count gx_p 3 21 = Some 2%nat /\
+  gx_cp_dump gx_p 21 3 = gx_cp_model gx_p 21 3 /\ gx_cp_count gx_p 21 3 = Some 2%nat /\
+  gx_cp_dump gx_p 3 27 = gx_cp_model gx_p 3 27 /\ gx_cp_count gx_p 3 27 = Some 3%nat /\
+  (* the new_path block (1000, the first allocation) is gone, as are the three full_path blocks of the operations
+     that have a suffix ... none here: "replace" has none; the two "remove" have: blocks 1014 and 1022 *)
+  forallb (fun b => bool_decide (b ∉ h_live (out_heap (gx_cp gx_p 3 27) gx_heap))) [1000; 1014; 1022]%positive = true /\
+  elements (lib_live gx_heap ∖ lib_live (out_heap (gx_cp gx_p 3 27) gx_heap)) = [].
+Proof. split_and!; vm_compute; reflexivity. Qed.
+
+Lemma gx_stage5_runs :
+  (* objects {"z":1} / {"z":2,"w":[true]}: the members of 'to' are sorted to w, z: add /x/w, replace /x/z *)
+  gx_cp_dump gx_p 8 25 = gx_cp_model gx_p 8 25 /\ gx_cp_count gx_p 8 25 = Some 2%nat /\
+  (* the two documents, path "": 8 operations, nested paths "/a/1", "/k~1~0/w" built in new_path blocks *)
+  gx_cp_dump [] 1 20 = gx_cp_model [] 1 20 /\ gx_cp_count [] 1 20 = Some 8%nat /\
+  (* 'from' and 'to' are left sorted, exactly as the value-level model says *)
+  (match PatchDefs.create_patches (Tree.node_depth (gx_node gx_F 1)) [] [] (gx_node gx_F 1) (gx_node gx_F 20) true with
+   | Ok (_, f', t') =>
+       out_val (CoreOps.dump_node 50 (Some 1%positive) (out_heap (gx_cp [] 1 20) gx_heap)) = Some (Some (f', true)) /\
+       out_val (CoreOps.dump_node 50 (Some 20%positive) (out_heap (gx_cp [] 1 20) gx_heap)) = Some (Some (t', true)) /\
+       f' <> gx_node gx_F 1
+   | _ => False
+   end) /\
+  elements (lib_live gx_heap ∖ lib_live (out_heap (gx_cp [] 1 20) gx_heap)) = [].
+Proof. split_and!; try (vm_compute; reflexivity). vm_compute. split; [reflexivity|]. split; [reflexivity|]. discriminate. Qed.
+
+(** ** stage 6: the entry point, and the round trip *)
+Definition gx_heap2 : heap := heap_of_forest gx_A gx_St.
+Definition gx_vfrom : Tree.node := reify gx_St gx_from.
+Definition gx_vto : Tree.node := reify gx_St gx_to.
+Definition gx_gen_run : out (ptr * heap) :=
+  GenPatchHeapDefs.cJSONUtils_GeneratePatchesCaseSensitive nofail (Some 1%positive) (Some 20%positive) gx_heap2.
+Definition gx_gen_after : heap := out_heap gx_gen_run gx_heap2.
+Definition gx_dup_run : out (ptr * heap) := cJSON_Duplicate nofail (Some 1%positive) true gx_gen_after.
+Definition gx_dup_after : heap := out_heap gx_dup_run gx_gen_after.
+Definition gx_dup_id : ptr := match out_val gx_dup_run with Some p => p | None => None end.
+Definition gx_apply_run : out (Z * heap) :=
+  PatchHeapApplyDefs.cJSONUtils_ApplyPatchesCaseSensitive nofail gx_dup_id (Some 1000%positive) gx_dup_after.
+Definition gx_apply_after : heap := out_heap gx_apply_run gx_dup_after.
+
+Lemma gx_MInv2 : MInv gx_heap2 gx_A.
+Proof. apply heap_of_forest_MInv; vm_compute; reflexivity. Qed.
+
+Lemma gx_stage6_runs :
+  out_val gx_gen_run = Some (Some 1000%positive) /\
+  (match PatchDefs.cJSONUtils_GeneratePatchesCaseSensitive gx_vfrom gx_vto with
+   | Ok (patches, f', t') =>
+       out_val (CoreOps.dump_node 50 (Some 1000%positive) gx_gen_after) = Some (Some (patches, true)) /\
+       out_val (CoreOps.dump_node 50 (Some 1%positive) gx_gen_after) = Some (Some (f', true)) /\
+       out_val (CoreOps.dump_node 50 (Some 20%positive) gx_gen_after) = Some (Some (t', true)) /\
+       length (Tree.n_children patches) = 8%nat
+   | _ => False
+   end) /\
+  (* NULL arguments: NULL, nothing touched *)
+  GenPatchHeapDefs.cJSONUtils_GeneratePatchesCaseSensitive nofail None (Some 20%positive) gx_heap2 = Ret (None, gx_heap2) /\
+  GenPatchHeapDefs.cJSONUtils_GeneratePatches nofail (Some 1%positive) None gx_heap2 = Ret (None, gx_heap2) /\
+  (* nothing of the operands released; every temporary gone: the 62 ... new blocks are what the array owns *)
+  elements (lib_live gx_heap2 ∖ lib_live gx_gen_after) = [] /\
+  (* the round trip: duplicate 'from', apply the generated patch to the duplicate *)
+  out_val gx_apply_run = Some 0 /\
+  (match out_val (CoreOps.dump_node 50 gx_dup_id gx_apply_after) with
+   | Some (Some (d, true)) => Rfc6902.doc_eqb d gx_vto = true /\ Rfc6902.doc_eqb gx_vto d = true
+   | _ => False
+   end) /\
+  (* 'to' reads back unchanged *)
+  out_val (CoreOps.dump_node 50 (Some 20%positive) gx_apply_after) = out_val (CoreOps.dump_node 50 (Some 20%positive) gx_gen_after).
+Proof. split_and!; try (vm_compute; reflexivity). all: vm_compute; repeat split; reflexivity. Qed.
+
+Lemma tdisj_dec' a b : forallb (fun x => bool_decide (x ∉ ids_t b)) (ids_t a) = true -> tdisj a b.
+Proof.
+  intros H x Hx. rewrite forallb_forall in H. specialize (H x ltac:(by apply elem_of_list_In)). by apply bool_decide_eq_true in H.
+Qed.
+
+Lemma gx_hypotheses :
+  MInv gx_heap2 gx_A /\ NoLeak gx_heap2 gx_A /\
+  find_tree 1%positive gx_A = Some gx_from /\ find_tree 20%positive gx_A = Some gx_to /\ tdisj gx_from gx_to /\
+  gdoc gx_from /\ gdoc gx_to /\ (height gx_to <= LIMIT)%nat /\ Z.of_nat (tsize gx_from) <= PointerDefs.SIZE_MAX /\
+  PatchConform.dwf (reify (h_str gx_heap2) gx_from) /\ PatchConform.dwf (reify (h_str gx_heap2) gx_to) /\
+  PatchApply.shallow (reify (h_str gx_heap2) gx_from) /\ PatchApply.shallow (reify (h_str gx_heap2) gx_to) /\
+  2 * Z.of_nat (Tree.node_size (reify (h_str gx_heap2) gx_from) + Tree.node_size (reify (h_str gx_heap2) gx_to)) <= PointerDefs.SIZE_MAX.
+Proof.
+  assert (Df : PatchConform.dwf (reify (h_str gx_heap2) gx_from)) by (apply PatchSeq.dwfb_sound; vm_compute; reflexivity).
+  assert (Dt : PatchConform.dwf (reify (h_str gx_heap2) gx_to)) by (apply PatchSeq.dwfb_sound; vm_compute; reflexivity).
+  split; [exact gx_MInv2|]. split; [apply heap_of_forest_NoLeak|]. split; [vm_compute; reflexivity|]. split; [vm_compute; reflexivity|].
+  split; [apply tdisj_dec'; vm_compute; reflexivity|]. split; [exact (GenPatchHeapRound.dwf_gdoc _ _ Df)|].
+  split; [exact (GenPatchHeapRound.dwf_gdoc _ _ Dt)|]. split; [vm_compute; lia|]. split; [vm_compute; discriminate|].
+  split; [exact Df|]. split; [exact Dt|]. split; [apply PatchSeq.shallowb_sound; vm_compute; reflexivity|].
+  split; [apply PatchSeq.shallowb_sound; vm_compute; reflexivity|]. vm_compute. discriminate.
+Qed.
+
+(** [generate_patches_refines] / [generate_patches_ledger] / [generate_then_apply] instantiated on [gx_heap2] *)
+Lemma gx_refines_instance :
+  exists h' F' res tf' tu',
+    generate_patches nofail (Some 1%positive) (Some 20%positive) true gx_heap2 = Ret (Some (tid res), h') /\
+    MInv h' (F' ++ [res]) /\ NoLeak h' (F' ++ [res]) /\
+    find_tree 1%positive F' = Some tf' /\ find_tree 20%positive F' = Some tu' /\ treord gx_from tf' /\ treord gx_to tu' /\
+    PatchDefs.generate_patches (reify (h_str gx_heap2) gx_from) (reify (h_str gx_heap2) gx_to) true =
+      Ok (reify (h_str h') res, reify (h_str h') tf', reify (h_str h') tu').
+Proof.
+  destruct gx_hypotheses as (I & NL & Hf & Ht & Hdis & Gf & Gt & Hh & Hmax & _).
+  destruct (generate_patches_refines true gx_heap2 gx_A 1%positive 20%positive gx_from gx_to I Hf Ht Hdis Gf Gt Hh Hmax)
+    as (h' & F' & res & tf' & tu' & Hrun & I' & _ & _ & Hf' & Ht' & Rf & Rt & V & NL' & _).
+  exists h', F', res, tf', tu'. exact (conj Hrun (conj I' (conj (NL' NL) (conj Hf' (conj Ht' (conj Rf (conj Rt V))))))).
+Qed.
+
+Lemma gx_roundtrip_instance :
+  exists h1 F1 res h2 dup h3 docT arrT,
+    GenPatchHeapDefs.cJSONUtils_GeneratePatchesCaseSensitive nofail (Some 1%positive) (Some 20%positive) gx_heap2 = Ret (Some (tid res), h1) /\
+    MInv h1 (F1 ++ [res]) /\ NoLeak h1 (F1 ++ [res]) /\
+    cJSON_Duplicate nofail (Some 1%positive) true h1 = Ret (Some (tid dup), h2) /\
+    PatchHeapApplyDefs.cJSONUtils_ApplyPatchesCaseSensitive nofail (Some (tid dup)) (Some (tid res)) h2 = Ret (0, h3) /\
+    MInv h3 (F2 F1 [] [] docT arrT) /\ NoLeak h3 (F2 F1 [] [] docT arrT) /\ tid docT = tid dup /\
+    Rfc6902.doc_eq (reify (h_str h3) docT) (reify (h_str gx_heap2) gx_to).
+Proof.
+  destruct gx_hypotheses as (I & NL & Hf & Ht & Hdis & _ & _ & _ & _ & Df & Dt & Sf & St & Hsz).
+  destruct (GenPatchHeapRound.generate_then_apply gx_heap2 gx_A 1%positive 20%positive gx_from gx_to I Hf Ht Hdis Df Dt Sf St Hsz)
+    as (h1 & F1 & res & tf' & tu' & Hrun1 & I1 & NL1 & _ & _ & _ & _ & _ & h2 & dup & Hrun2 & _ & _ & _ & h3 & docT & arrT & Hrun3 & I3 & Etd & _ & NL3 & _ & Deq & _).
+  exists h1, F1, res, h2, dup, h3, docT, arrT.
+  exact (conj Hrun1 (conj I1 (conj (NL1 NL) (conj Hrun2 (conj Hrun3 (conj I3 (conj (NL3 NL) (conj Etd Deq)))))))).
+Qed.
